@@ -621,7 +621,11 @@ def run(repo, rep):
         'between a completed operator production and an operator look-ahead '
         'must be the one the operator list dictates. No text is parsed.')
     cross_read_default(repo, rep)
-    check_actions(repo, rep)
+    try:
+        check_actions(repo, rep)
+    except AnalysisError as e:
+        # the table rules below do not depend on the reduce actions
+        rep.error(str(e))
     # which token a word becomes is part of "the operator table decides":
     # an operator word is an operator token wherever it stands
     from sa.rules import c16
